@@ -24,7 +24,10 @@ HERE = os.path.dirname(os.path.abspath(__file__))
 PINS = os.path.join(HERE, 'pins_entry.json')
 ENTRY = {'pyramid/security.py': ['_get_security_policy', 'principals_allowed_by_permission', 'view_execution_permitted',
                                  'SecurityAPIMixin.has_permission', 'LegacySecurityPolicy._get_authn_policy',
-                                 'LegacySecurityPolicy._get_authz_policy', 'LegacySecurityPolicy.permits']}
+                                 'LegacySecurityPolicy._get_authz_policy', 'LegacySecurityPolicy.permits'],
+         # outside the anchor files: what view_execution_permitted finds as view.__permitted__ is made here (the closure
+         # `permitted` hands request, context and the view's permission to policy.permits) and copied by preserve_view_attrs
+         'pyramid/viewderivers.py': ['secured_view', '_secured_view', 'preserve_view_attrs']}
 
 
 def blank_shape(node):
